@@ -72,7 +72,7 @@ package rsl
 //@   ensures nilOnError: err != nil ==> e == nil
 //@   ensures notNotFound: !errIs(err, ErrRSLEntryNotFound)
 
-//@ func [C04,C03] GetEntry -> (e, err)
+//@ func [C04,C03,C16] GetEntry -> (e, err)
 //@   requires storer != nil
 //@   assigns ghost faults, fresh(ReferenceEntry.*), fresh(AnnotationEntry.*), fresh(PropagationEntry.*), fresh(elems Hash)
 //@   ensures isEntry: err == nil ==> entryAt(e, entryID)
@@ -83,7 +83,7 @@ package rsl
 //@   ensures notFoundOnlyByFault: errIs(err, ErrRSLEntryNotFound) ==> faults > old(faults)
 //@   ensures errorCause: err != nil ==> faults > old(faults) || !pOK(cmsg(entryID))
 
-//@ func [C04,C03] GetLatestEntry -> (e, err)
+//@ func [C04,C03,C16] GetLatestEntry -> (e, err)
 //@   requires storer != nil
 //@   assigns ghost faults, fresh(ReferenceEntry.*), fresh(AnnotationEntry.*), fresh(PropagationEntry.*), fresh(elems Hash)
 //@   ensures isTip: err == nil ==> refSet[Ref] && entryAt(e, refTip[Ref])
